@@ -230,6 +230,10 @@ def _minit(spec, j):
       init = ['bogus', 'pca', None][int(rng.randint(3))]
     if isinstance(init, np.ndarray) and t % 3 == 1:
       init = np.asfortranarray(init)      # memory order must not matter
+    if isinstance(init, np.ndarray) and (t // 8) % 3 == 1:
+      # ... nor the precision the array is stored in: the numbers it holds
+      # are the matrix (checks and inverse are still double precision work)
+      init = init.astype(np.float32)
     init0 = init.copy() if isinstance(init, np.ndarray) else init
     inp0 = inp.copy()
     r, e = _call(f, inp, init, seed, ret_inv, strict, 'prior')
